@@ -26,8 +26,8 @@ INFO = dict(
     assumptions=[
         "the three columns of a vertex / edge have one length (Vertex.Aligned / Edge.Aligned; the alignment hypothesis of toNx_pad is shown necessary by toNx_pad_needs_aligned)",
         "all stacked graphs / records have the same dict structure (SameKeys; jax.tree_util.tree_map raises otherwise)",
-        "filter_edges / filter_connections = True select connections by the keys of node.inputs (input names); default streams use connections without a custom name "
-        "(the custom-name case is a suspected defect, reported separately, see notes/C14.md)",
+        "filter_edges / filter_connections = True select the connections the provided node objects are connected by, named by the sending node (Sel.inputs of the model = "
+        "sender names; connections made under a custom input name are part of every stream since the repair of the defect recorded in known_findings.txt)",
     ],
     statements=[
         "stackLeaf_eq: _stack pads every array at the END with the pad value up to the longest one and keeps the episode order (stackLeaf_rect: rectangular; length_le_maxLen: pad width >= 0)",
@@ -43,7 +43,7 @@ INFO = dict(
         "toGraph_vertices / toGraph_ekeys / toGraph_edge / toGraph_map: to_graph has one vertex per recorded node with the recorded seq/ts_start/ts_end and one edge per recorded connection with the "
         "recorded seq_out/seq_in/ts_recv",
         "rpadLeaf_eq / paddedStack_get_cols / paddedStack_toGraph: ExperimentRecord._padded_stack pads like Graph.stack; stacked_record[i] = record i followed by pad values; stack().to_graph() = to_graph()",
-        "witnesses: toNx_pad_needs_aligned (alignment hypothesis is necessary), gfilter_shadow_name_witness (custom input name is dropped by filter_edges=True), rfilter_unrecorded_name (KeyError)",
+        "witnesses: toNx_pad_needs_aligned (alignment hypothesis is necessary), gfilter_custom_input_name_kept (a connection made under a custom input name survives both flags), rfilter_unrecorded_name (KeyError)",
     ],
 )
 
@@ -101,7 +101,9 @@ def run(ctx):
             res.fail(key, desc, dict(case=case, all=[d for _, d in fails[:10]]))
 
     for case_i in range(n_cases):
-        topo = T.rand_topology(rng)
+        topo = T.rand_topology(rng, custom_names=(case_i % 3 == 1))  # a third of the systems use custom input names for some connections
+        if any(c["name"] for c in topo["conns"]):
+            res.count("topologies_with_custom_input_names")
         idx = _names_idx(topo)
         names = topo["names"]
         nodes_full = T.build_nodes(topo)
@@ -147,7 +149,7 @@ def run(ctx):
                 res.count("graph_filters")
                 if F is not None:
                     cmds.append(dict(cmd="c14.gfilter", graph=case["graphs"][0], names=[idx[n] for n in nodes_arg],
-                                     inputs=[[idx.get(k, 1000 + j) for j, k in enumerate(nodes_arg[n].inputs)] for n in nodes_arg], flag=flag))
+                                     inputs=[[idx.get(c_.output_node.name, 1000 + j) for j, c_ in enumerate(nodes_arg[n].inputs.values())] for n in nodes_arg], flag=flag))
                     metas.append(("gfilter", dict(F=F, names=names, label=fl), case))
                     # the filtered graph converts to networkx without touching a vertex outside of it (graphs of style clean are closed)
                     if style == "clean":
@@ -204,7 +206,7 @@ def run(ctx):
                         res.count("record_filters")
                         if F is not None:
                             cmds.append(dict(cmd="c14.rfilter", record=rcase["records"][0], names=[idx[n] for n in nodes_arg],
-                                             inputs=[[idx.get(k, 1000 + j) for j, k in enumerate(nodes_arg[n].inputs)] for n in nodes_arg], flag=flag))
+                                             inputs=[[idx.get(c_.output_node.name, 1000 + j) for j, c_ in enumerate(nodes_arg[n].inputs.values())] for n in nodes_arg], flag=flag))
                             metas.append(("rfilter", dict(F=F, names=names, label=fl), rcase))
                     # filter of the stacked record == stack of the filtered records (keys)
                     try:
@@ -218,34 +220,22 @@ def run(ctx):
                     except Exception as ex:
                         res.fail("rfilter_exception", f"{label}: ExperimentRecord.filter/stack raised {type(ex).__name__}: {str(ex)[:200]}", rcase)
 
-        # -- separate, clearly labelled stream: connections with a custom input name (suspected defect, NOT a violation)
+        # -- all nodes selected, every connection made under a custom input name: nothing may be dropped by either flag
         if case_i % 10 == 0:
             ctopo = T.rand_topology(rng, custom_names=True)
             cnodes = T.build_nodes(ctopo)
             cg = T.rand_graph(rng, onp, base, ctopo, style="clean")
             res.count("custom_name_stream.cases")
             try:
-                Ft = cg.filter(cnodes, filter_edges=True)
-                Ff = cg.filter(cnodes, filter_edges=False)
-                dropped = sorted(set(Ff.edges) - set(Ft.edges))
-                aliased = sorted((c["src"], c["dst"]) for c in ctopo["conns"] if c["name"])
-                if dropped:
-                    res.count("custom_name_stream.suspected_defect_connection_dropped", len(dropped))
-                    if not any("custom input name" in n for n in res.notes):
-                        res.notes.append(f"suspected defect (not a VIOLATION): Graph.filter(all nodes, filter_edges=True) drops the connections {dropped} that were made with "
-                                         f"connect(..., name=<custom input name>) (aliased connections: {aliased}); filter_edges=False keeps them. See notes/C14.md.")
-                if set(dropped) - set(aliased):
-                    res.fail("filter_edges", f"custom-name stream: Graph.filter(all nodes, filter_edges=True) dropped {sorted(set(dropped) - set(aliased))} which have no custom name", dict(topo=ctopo))
+                for flag in (True, False):
+                    f, _ = T.mon_graph_filter(cg, cnodes, flag, onp, f"custom input names {[(c['src'], c['dst'], c['name']) for c in ctopo['conns'] if c['name']]}: Graph.filter(all nodes, filter_edges={flag})")
+                    fail_all(f, dict(topo=ctopo, flag=flag))
                 crec = T.rand_record(rng, onp, base, ctopo, cnodes, style="clean")
-                Rt = crec.filter(cnodes, filter_connections=True)
-                rdropped = sorted(T.record_connections(crec) - T.record_connections(Rt))
-                if rdropped:
-                    res.count("custom_name_stream.suspected_defect_record_connection_dropped", len(rdropped))
-                if set(rdropped) - set(aliased):
-                    res.fail("rfilter_connections", f"custom-name stream: EpisodeRecord.filter(all nodes, filter_connections=True) dropped {sorted(set(rdropped) - set(aliased))} which have no custom name", dict(topo=ctopo))
+                for flag in (True, False):
+                    f, _ = T.mon_record_filter(crec, cnodes, flag, onp, f"custom input names {[(c['src'], c['dst'], c['name']) for c in ctopo['conns'] if c['name']]}: EpisodeRecord.filter(all nodes, filter_connections={flag})")
+                    fail_all(f, dict(topo=ctopo, flag=flag))
             except Exception as ex:
-                res.count("custom_name_stream.exception")
-                res.notes.append(f"custom-name stream: {type(ex).__name__}: {str(ex)[:200]}")
+                res.fail("filter_exception", f"custom-name stream: {type(ex).__name__}: {str(ex)[:200]}", dict(topo=ctopo))
 
     # ---- model vs implementation
     if ctx.driver is not None and cmds:
